@@ -528,6 +528,20 @@ def exifMarkerSkip (buf : Bytes) : Nat :=
   else if (buf.drop 12).take 4 == t_Exif then be32 (buf.drop 8) + 8
   else 0
 
+/-- inside the Exif item box: skip the item's own header (its length field counts from the 4 bytes after it), read the
+Tiff header, hand the rest to the Exif callback -/
+def mdatExifBody (size : Nat) : M (Except ErrKind Unit) := do
+  match ← attempt (discard ((size : Int) + 4)) with
+  | .error e => pure (Except.error e)
+  | .ok _ =>
+    match ← attempt (readExifHeader 1) with
+    | .error e => pure (Except.error e)
+    | .ok h =>
+      let s ← get
+      if s.cfg.hasExif then
+        let _ ← attempt (callback "exif" h)
+      pure (Except.ok ())
+
 def readMdat : M Unit := do
   let s ← get
   if s.exifOff == 0 then close
@@ -539,17 +553,7 @@ def readMdat : M Unit := do
     let size := exifMarkerSkip buf
     let b ← head
     let len := toI64 s.exifLen
-    let r ← openBox len len (b.size - b.remain + b.offset) (t_Exif) (do
-      match ← attempt (discard ((size : Int) + 4)) with
-      | .error e => pure (Except.error e)
-      | .ok _ =>
-        match ← attempt (readExifHeader 1) with
-        | .error e => pure (Except.error e)
-        | .ok h =>
-          let s ← get
-          if s.cfg.hasExif then
-            let _ ← attempt (callback "exif" h)
-          pure (Except.ok ()))
+    let r ← openBox len len (b.size - b.remain + b.offset) (t_Exif) (mdatExifBody size)
     match r with
     | .error e => fail e
     | .ok _ => close
